@@ -41,7 +41,8 @@ TB_CONV = TB_COMMON + [
     'N1 (reference patterns on Copy values) and N3 (`for x in user_iterator` desugared to `loop { match it.next() .. }`, the Rust reference definition of `for`) are applied to fancy_layout_interpreting.rs before verification',
     'E5: the lazy_static tables US_KEYBOARD_LAYOUT / CHAR_ACCESS_MAP are replaced by external_body accessors (assumed: `get` returns None or a reference into the table)',
     'E2: the Display impls of fancy_keys.rs are compiled but not verified; format! results are opaque (fmt_req_all axioms for Row, Modifier, KeyCode, Vec<KeyCode>)',
-    'assumed contracts on std: <[T]>::sort keeps the length, Vec::extend / Chars::count have no contract beyond memory safety, HashMap::get_mut, String / FromSet obey the hash key model',
+    'assumed contracts on std: <[T]>::sort leaves an ascending permutation of the elements (ord_leq, a total order consistent with == for KeyCode: derived Ord on a field-less enum), Vec::extend / Chars::count have no contract beyond memory safety, HashMap::get_mut, String / FromSet obey the hash key model, and FromSet keys are equal exactly when their key vectors have equal contents (derived Eq/Hash; axiom_fromset_ext)',
+    "N5: `s.iter().map(closure).collect()` (one site: FromSet::new) is replaced by the push loop it stands for before verification; rustc's derive(Clone) on FromSet is the field-wise expansion written out in the overlay (E2'); both are exercised on every run by the bounded program comparison programs_bounded",
 ]
 AS_CONV = [
     'OUT OF REACH, trusted and named: serde_json::from_reader on arbitrary bytes, layout_parsing_formatting::parse_layout_from_json (serde_json::Value, String case folding) and the file I/O of load_layout_from_file; the claim starts at the fancy_keys AST that the parser returns',
@@ -68,12 +69,13 @@ PROPS = {
     'C11': dict(units=['loop'], dep_units=['mapper', 'converter'], level='proof', trusted_base=TB_LOOP, assumptions=AS_LOOP, witness='loop', rests_on=['C09']),
     'C12': dict(units=['loop'], dep_units=['mapper'], level='proof', trusted_base=TB_LOOP, assumptions=AS_LOOP, witness='loop'),
     'C20': dict(units=['loop'], level='proof', trusted_base=TB_LOOP, assumptions=AS_LOOP, witness='loop', extras=['real_driver_pipes_c20']),
-    'C14': dict(units=['converter', 'mapper', 'glue'], level='proof', trusted_base=TB_MAPPER + TB_CONV[4:], assumptions=AS_CONV + AS_MAPPER, witness='loader', extras=['loader_fuzz_bounded']),
+    'C14': dict(units=['converter', 'mapper', 'glue', 'frontend'], level='proof', trusted_base=TB_MAPPER + TB_CONV[4:], assumptions=AS_CONV + AS_MAPPER, witness='loader', extras=['loader_fuzz_bounded']),
     'C13': dict(units=['converter'], level='proof', trusted_base=TB_CONV + [
                     'E5 accessors: CHAR_ACCESS_MAP.get / US_KEYBOARD_LAYOUT.get are assumed to be functions of their argument (uninterpreted cam_entry / ukl_row); that these functions ARE the US-QWERTY layout is decided by the complete enumeration tables_enum (every Unicode scalar value, every row), reported as enumerative',
                     'assumed contract on <Vec<T> as Extend<&T>>::extend (appends the items the argument yields; a &Vec yields its elements in order), used for the trigger-side and output-side key lists'],
                 assumptions=AS_CONV + [
-                    'NOT under contract (named, unproved): the meaning of "the same trigger set" in the repeat-only pass (FromSet: sort + HashMap; only its frame is proved: triggers/outputs untouched, only identity mappings appended) and therefore the repeat modes of the FINAL layout (convert_single / convert_row ensure the repeat mode and absorbing list of every mapping they produce, before that pass), and the equivalence of spellings (parser, out of reach)',
+                    'the repeat-only pass IS under contract (convert ensures convert_full: first-pass expansion of every source mapping with repeat mode and absorbing list, then for every repeat-only entry and every combination, in order, the first-pass mappings with the same trigger set - same final key, same modifiers in any order - get its repeat mode, or an identity mapping is appended if there is none); "there is none" refers to the mappings of the first pass: an identity mapping added by an earlier repeat-only entry is not found by a later one (what the code does; the statement does not say)',
+                    'NOT under contract (named, unproved): WHEN the converter accepts (the contracts read `r is Ok ==> ...`; the bounded extra programs_bounded checks acceptance), and the equivalence of spellings (parser, out of reach)',
                     'an alias name that occurs twice among the trigger modifiers is resolved on the output side to its LAST trigger-side occurrence (what the code does; the statement does not say)'],
                 witness='loader', extras=['tables_enum', 'programs_bounded']),
     'C17': dict(units=['udev'], level='proof', extras=['udev_enum'], witness=None,
